@@ -211,6 +211,34 @@ pub fn c12(tier: &str, seed: u64) {
         sample(&[("input", hex(&input)), ("md", md.to_string()), ("runs", runs.len().to_string()), ("unblinded", hex(&runs[0].3)), ("finalized", hex(&fin))]);
       }
     }
+    // MANY requests on one thread (this one, and one spawned for the purpose): hundreds of blindings of
+    // one input, all points and scalars distinct - a pool of blinding material must not run in circles
+    if si == 1 || (!q && si % 64 == 1) {
+      let input = gen_input(&mut g, 4);
+      let many = |inp: Vec<u8>| -> Vec<(Vec<u8>, [u8; 32])> {
+        (0..600)
+          .map(|_| {
+            let (bp, cs) = Client::blind(&inp);
+            (bp.as_bytes().to_vec(), Scalar::from(cs).to_bytes())
+          })
+          .collect()
+      };
+      let here = many(input.clone());
+      let inp2 = input.clone();
+      let there = std::thread::spawn(move || many(inp2)).join().expect("blinding thread");
+      for (name, list) in [("the calling thread", &here), ("a spawned thread", &there)] {
+        let mut pts: HashMap<&Vec<u8>, usize> = HashMap::new();
+        let mut scs: HashMap<&[u8; 32], usize> = HashMap::new();
+        for (i, (p, sc)) in list.iter().enumerate() {
+          if let Some(j) = pts.insert(p, i).or(scs.insert(sc, i)) {
+            fail("blinding_repeated", &[("input", hex(&input)), ("where", format!("{}: request #{} repeats request #{}", name, i, j)), ("point", hex(p))]);
+            break;
+          }
+        }
+      }
+      case(true);
+      stat("c12.many_requests_on_one_thread");
+    }
     // freshness across THREADS of one process (clients blind wherever the embedding application runs
     // them): concurrent threads, and threads started one after the other, must not share blindings
     if si % 8 == 0 {
@@ -405,6 +433,26 @@ pub fn c13(tier: &str, seed: u64) {
           );
         }
         case(true);
+      }
+      // ONE blinded point evaluated verifiably under two tags, and the identical request repeated:
+      // every proof has its own nonce commitment
+      if let Some(&md2) = tags.iter().find(|&&t| t != md) {
+        let mut local: Vec<(u8, Vec<u8>)> = Vec::new();
+        for tag in [md, md2, md] {
+          if let Ok(evx) = server.eval(&bp, tag, true) {
+            let (cx, sx) = proof_cs(evx.proof.as_ref().unwrap());
+            if let Some(pos) = pk_entry_pos(&pkb, tag) {
+              let pkv = dec(&pkb[..32]) + dec(&pkb[pos + 1..pos + 33]);
+              let t2 = (sx * BASE + cx * pkv).compress().as_bytes().to_vec();
+              if !commitments.insert(t2.clone()) {
+                fail("proof_nonce_repeated", &[("t2", hex(&t2)), ("what", format!("one blinded point evaluated under tags {:?} then {}: a nonce commitment repeats", local.iter().map(|x| x.0).collect::<Vec<_>>(), tag)), ("point", hex(bp.as_bytes()))]);
+              }
+              local.push((tag, t2));
+            }
+          }
+        }
+        case(true);
+        stat("c13.one_point_many_tags");
       }
       // tampering at the level of proof BYTES: the same residues in a non-canonical encoding
       // (x + k*l) are different bytes and must not verify (refused at decoding or by verify)
